@@ -2,25 +2,20 @@
    The open-ended iterators are in C10_iter.v (their hypotheses are discharged in C10_later.v). *)
 From JV Require Import Sem Gen Spec SpecX.
 From JV.Proofs Require Import SpecFacts Cal Core AtJdn SuccPred.
+Require JV.Proofs.Glue_C10_core.
 Open Scope Z_scope.
 
 Theorem C10_succ : forall c j, ValidCal c -> in_i32 j ->
   exists d, Calendar_at_jdn (cal_of c) j = Ret d /\
     ((j < i32_max /\ exists d', Calendar_at_jdn (cal_of c) (j + 1) = Ret d' /\ Date_succ d = Ret (Some d')) \/
      (j = i32_max /\ Date_succ d = Ret None)).
-Proof.
-  intros c j V Hj. exists (date_of c j). split; [apply at_jdn_ok; assumption|]. rewrite succ_ok by assumption.
-  destruct (Z.ltb_spec j i32_max); [left; split; [assumption|]; exists (date_of c (j + 1)); split; [apply at_jdn_ok; [assumption|range]|reflexivity]|right; split; [range|reflexivity]].
-Qed.
+Proof. exact JV.Proofs.Glue_C10_core.C10_succ_lemma. Qed.
 Print Assumptions C10_succ.
 Theorem C10_pred : forall c j, ValidCal c -> in_i32 j ->
   exists d, Calendar_at_jdn (cal_of c) j = Ret d /\
     ((i32_min < j /\ exists d', Calendar_at_jdn (cal_of c) (j - 1) = Ret d' /\ Date_pred d = Ret (Some d')) \/
      (j = i32_min /\ Date_pred d = Ret None)).
-Proof.
-  intros c j V Hj. exists (date_of c j). split; [apply at_jdn_ok; assumption|]. rewrite pred_ok by assumption.
-  destruct (Z.ltb_spec i32_min j); [left; split; [assumption|]; exists (date_of c (j - 1)); split; [apply at_jdn_ok; [assumption|range]|reflexivity]|right; split; [range|reflexivity]].
-Qed.
+Proof. exact JV.Proofs.Glue_C10_core.C10_pred_lemma. Qed.
 Print Assumptions C10_pred.
 
 (* non-vacuity: across the 1582 gap, across a skipped year, and at the upper limit *)
